@@ -23,7 +23,7 @@ for d in seeded/${glob}*/; do
   if ! git -C "$MX/repo" apply "/verif/$d/patch.diff" 2>/dev/null; then echo "$id PATCH-DOES-NOT-APPLY"; echo "patch does not apply to the current tree" > "$d/trial.txt"; continue; fi
   ./verif check "$prop" --budget "$budget" > "$MX/out_$id.txt" 2>&1; rc=$?
   git -C "$MX/repo" checkout -q -- .
-  { echo "check: ./verif check $prop --budget $budget (VERIF_SEED=${VERIF_SEED:-0}) on a scratch worktree of /repo at $(git -C /repo log --format=%h -1) + patch.diff; exit code $rc"; grep -E "^(INCONCLUSIVE|NOTE)|^  signature" "$MX/out_$id.txt" | head -12; } > "$d/trial.txt"
+  { echo "check: ./verif check $prop --budget $budget (VERIF_SEED=${VERIF_SEED:-0}) on a scratch worktree of /repo at $(git -C "$MX/repo" log --format=%h -1) + patch.diff; exit code $rc"; grep -E "^(INCONCLUSIVE|NOTE)|^  signature" "$MX/out_$id.txt" | head -12; } > "$d/trial.txt"
   python3 - "$d" "$rc" <<'PY'
 import json,sys
 d,rc=sys.argv[1],int(sys.argv[2])
